@@ -474,7 +474,7 @@ pub fn check_c02() -> PropertyCheck {
 pub fn check_c17() -> PropertyCheck {
   PropertyCheck {
     id: "C17",
-    scenarios: vec![Box::new(C17), Box::new(C17Multi)],
+    scenarios: vec![Box::new(C17), Box::new(C17Multi), Box::new(crate::props::c02t::C17Threads)],
     runs: (300_000, 20_000_000),
     rule: "pipelines: as C01 with is_closed() sampled after every action and after quiescence; composites: histories of <=10 append / append-closed / member-closes / unsubscribe / is_closed / clone / retain on MultiSubscription(Threads) with counting member stubs; non-trivial = >=3 samples / >=1 member and >=3 ops",
     assumptions: vec![],
